@@ -15,8 +15,11 @@ from harness.checks import convchecks as cc
 
 def lattices(tier, seed):
     P2 = cc.set_product
+    # deep wrap: the dilated half-width of the filter exceeds the extent of a toroidal axis (several wraps)
+    deep = dict(D=2, Ns={(2, 2), (2, 3), (3, 2), (1, 3)}, Ms={(3, 3), (5, 5), (3, 5)}, Modes={"TORUS"}, Pads={((1, 1), (1, 1))},
+                StrideSet={(1, 1)}, RdilSet={(1, 1), (3, 3), (4, 2)}, LdilSet={(1, 1)}, GroupMode="all", SampleMod=2, Seed=seed % 2)
     if tier == "quick":
-        return [
+        return [deep,
             dict(D=2, Ns=P2([1, 2, 3], 2), Ms=P2([1, 2, 3], 2), Modes={"TORUS", "SAME", "VALID", "EXPL"},
                  Pads={((1, 1), (1, 1)), ((2, 2), (1, 1))}, StrideSet={(1, 1)},
                  RdilSet={(1, 1), (2, 1), (2, 2)}, LdilSet={(1, 1), (1, 2), (2, 2)},
@@ -27,6 +30,7 @@ def lattices(tier, seed):
                  GroupMode="gens", SampleMod=5, Seed=seed % 5),
         ]
     return [
+        deep,
         dict(D=2, Ns=P2([1, 2, 3, 4, 5], 2), Ms=P2([1, 2, 3, 4], 2), Modes={"TORUS", "SAME", "VALID", "EXPL"},
              Pads={((1, 1), (1, 1)), ((2, 2), (1, 1)), ((3, 3), (0, 0))}, StrideSet={(1, 1)},
              RdilSet=P2([1, 2, 3], 2), LdilSet=P2([1, 2, 3], 2), GroupMode="all", SampleMod=307, Seed=seed % 307),
